@@ -478,6 +478,14 @@ def jobs(tier="quick", seed=0):
                       x86_harness(name, isa, ff, AL, cleanup, adj_known, pattern), setup=lambda: shims.installed([CP, UT]),
                       replay=x86_replay(name, isa, ff, AL, cleanup, adj_known, pattern), kind="E",
                       func="gtirb_rewriting.patches.calls:_CallPatchX86.get_asm", expect_cover=("generated",), max_seconds=1500)
+    # dependency: get_asm trusts InsertionContext.stack_adjustment; the contract that makes it "the real displacement of the stack pointer
+    # by the frame around the patch" is C16's ADJ clause on ABI._create_prologue_and_epilogue -- discharged here again, for the frames
+    # that report an adjustment (align_stack off), so that C17 stands on its own
+    from . import c16
+    for j in c16._jobs_e(tier, seed):
+        if "/align=0/" in j.id and not j.id.startswith("C16/MIPS32"):
+            j.id = "C17/frame/" + j.id[4:]
+            yield j
     yield Job("C17/ARM64/load_immediate", load_immediate_harness, setup=lambda: shims.installed([CP, UT]), replay=lambda c, m: replay_load_immediate(c, m), kind="D",
               func="gtirb_rewriting.patches.calls:_CallPatchARM64._load_immediate", expect_cover=("generated",), timeout_ms=180000)
     yield Job("C17/ARM64/load_symbol", load_symbol_harness, setup=lambda: shims.installed([CP, UT]), kind="D",
